@@ -131,7 +131,7 @@ def check_history(ctx, c):
     ctx.cell(f"history/{c['name']}/dim{dim}")
     hist = []
     for step in range(c["nsteps"]):
-        op = str(rng.choice(["period", "period_scalar", "period_one_axis", "period_scalar_keeps_axis", "mode_no_one_axis", "iso_rotated", "mode_no", "seed", "anis", "len_scale_list", "angles", "opt", "len_scale",
+        op = str(rng.choice(["period", "period_scalar", "period_inplace", "period_edit_reported", "period_one_axis", "period_scalar_keeps_axis", "mode_no_one_axis", "iso_rotated", "mode_no", "seed", "anis", "len_scale_list", "angles", "opt", "len_scale",
                              "new_model", "var", "call"]))
         with warnings.catch_warnings():
             warnings.simplefilter("ignore")
@@ -139,6 +139,17 @@ def check_history(ctx, c):
                 srf.generator.period = [round(float(v), 4) for v in rng.uniform(6, 25, size=dim)]
             elif op == "period_scalar":
                 srf.generator.period = round(float(rng.uniform(6, 25)), 4)
+            elif op == "period_inplace":
+                # augmented assignment on the property: read, scale, assign
+                srf.generator.period *= float(rng.choice([1.5, 0.75, 2.0]))
+            elif op == "period_edit_reported":
+                # edit the array the generator reports and hand it back
+                pr = srf.generator.period
+                if np.ndim(pr) == 0:
+                    srf.generator.period = float(pr) * 1.25
+                else:
+                    pr[int(rng.integers(0, len(pr)))] = round(float(rng.uniform(6, 25)), 4)
+                    srf.generator.period = pr
             elif op == "period_one_axis":
                 # only some axes change: the others keep exactly their old value
                 newp = [float(v) for v in np.atleast_1d(np.asarray(srf.generator.period, dtype=float))]
